@@ -68,7 +68,9 @@ def build_blocks(tier, seed):
                 b, _ = gen.enumerate_blocks(v, [["*"] * (depth - 1)], 5, simulate=(n // 3, depth), seed=seed + depth)
                 sim += b
         real = corpus.real_blocks()
-    gs.update({"X": len(xs), "S": len(sim), "R": len(real)})
+    deep = [t for t in gen.deep_blocks(300 if tier == "quick" else 3000, seed) if any(k in t for k in ("MSTORE", "SSTORE"))]
+    xs = xs + deep
+    gs.update({"X": len(xs), "S": len(sim), "R": len(real), "deep": len(deep)})
     hand = [t for t in corpus.hand_blocks() if any(k in t for k in ("MSTORE", "MLOAD", "SSTORE", "SLOAD", "KECCAK"))]
     cmds = [{"cmd": "sfs", "text": t} for t in hand + xs + sim] + [{"cmd": "sfs", "items": b["items"]} for b in real]
     return cmds, gs
